@@ -6,7 +6,7 @@ import glob, os, shutil, subprocess, sys, tempfile
 from concurrent.futures import ThreadPoolExecutor
 pid = sys.argv[1]
 RD = os.environ.get("REFAC_DIR", "/verif/refactorings")
-vs = sys.argv[2:] or sorted(os.path.basename(p)[:-6] for p in glob.glob("%s/%s/[rstu][0-9]*.patch" % (RD, pid)))
+vs = sys.argv[2:] or sorted(os.path.basename(p)[:-6] for p in glob.glob("%s/%s/[rstuv][0-9]*.patch" % (RD, pid)))
 PROPS = ["C%02d" % i for i in range(1, 21)]
 
 
